@@ -545,9 +545,16 @@ func evictRaceCase(k *engine.Case) {
 		for i := 0; i < size; i++ {
 			c.Set(bg, fmt.Sprintf("old-%d", i), []byte{byte(i)})
 		}
-		fns := []func(){func() { c.Set(bg, "new", []byte{99}) }}
+		// the readers keep reading the least recently used key until the Set has returned
+		// (bounded), so that a read lands in whatever gap the Set leaves
+		var setDone atomic.Bool
+		fns := []func(){func() { c.Set(bg, "new", []byte{99}); setDone.Store(true) }}
 		for i := 0; i < readers; i++ {
-			fns = append(fns, func() { c.Get(bg, "old-0") })
+			fns = append(fns, func() {
+				for n := 0; n < 20000 && !setDone.Load(); n++ {
+					c.Get(bg, "old-0")
+				}
+			})
 		}
 		if !runRacers(k, "evict-race", fns) {
 			return
